@@ -1,5 +1,6 @@
 """C01 -- node tree is a lossless, exactly positioned cover of the source."""
 from .. import soups, spans, px, contexts, monitor
+from ..contexts import EXTRA_TOKENS
 from ..alphabets import SIG, SIG_SMALL, EVERYTYPE_TOKENS
 from ..engine import exc_key, exc_detail, ddmin, hyp_run
 from ..treedump import walk, kind
@@ -42,6 +43,8 @@ def plan(tier, seed):
         shards.append(('soup', 'default', 'SIG', L, k))
     for k in range(NSHARDS):
         shards.append(('soup', 'every', 'EVERY', LE, k))
+    for k in range(NSHARDS):
+        shards.append(('soup', 'extra', 'EXTRA', 3 if tier == 'quick' else 4, k))
     if L5:
         for k in range(NSHARDS):
             shards.append(('soup', 'default', 'SMALL', L5, k))
@@ -58,7 +61,7 @@ def plan(tier, seed):
                                  'comment-at-eof', 'doc:strict-ok']}
 
 
-ALPHAS = {'SIG': SIG, 'EVERY': ALPHA_EVERY, 'SMALL': SIG_SMALL}
+ALPHAS = {'SIG': SIG, 'EVERY': ALPHA_EVERY, 'SMALL': SIG_SMALL, 'EXTRA': EXTRA_TOKENS}
 
 
 def classify(s, nl, res, case):
